@@ -52,6 +52,7 @@ class Ctx:
         self.log_args: List[Any] = []
         self.exp_args: List[Any] = []
         self.data_vars: List[Any] = []
+        self.extra_vars: Dict[str, Any] = {}  # further solver variables to report in counterexample models (Int selectors)
         self.events: List[str] = []
         self.feas_s = 0.0
         self.feas_queries = 0
@@ -743,9 +744,11 @@ def integer_model(c: Ctx, cs: List[Any], model: Any, timeout_s: float = 20.0) ->
 
 def _model_dict(c: Ctx, m: Any) -> Dict[str, Any]:
     out: Dict[str, Any] = {}
-    for n, v in list(c.dims.items()) + list(c.reals.items()):
+    for n, v in list(c.dims.items()) + list(c.reals.items()) + list(c.extra_vars.items()):
         x = m.eval(v, model_completion=True)
-        if z3.is_rational_value(x):
+        if z3.is_int_value(x):
+            out[n] = x.as_long()
+        elif z3.is_rational_value(x):
             fr = Fraction(x.numerator_as_long(), x.denominator_as_long())
             out[n] = int(fr) if fr.denominator == 1 else float(fr)
         elif z3.is_algebraic_value(x):
